@@ -108,3 +108,11 @@ class BinsNeverHide(Case):
 
 
 CASES = [BinsOne("bed"), BinsOne("gff"), BinsNeverHide("bed"), BinsNeverHide("gff")]
+
+CANARIES = [
+    dict(name="bins: FIRST_SHIFT 16", props=("C16",), file="inscripta/biocantor/util/bins.py",
+         old="FIRST_SHIFT = 17", new="FIRST_SHIFT = 16", case="bins[one,bed]", expect="post:value"),
+    dict(name="bins: query set misses last bin", props=("C16",), file="inscripta/biocantor/util/bins.py",
+         old="range(offset + start, offset + stop + 1)", new="range(offset + start, offset + stop)",
+         case="bins[never-hide,bed]", expect="post:assigned-bin-in-query-set"),
+]
